@@ -35,7 +35,7 @@ ASSUMPTIONS = ["'in-between' cases (needed side present, other side missing) may
 REQUIRED = ["C13:valuation-raises-when-missing", "C13:valuation-ok-when-flat", "C13:rebalance-raises-when-missing",
             "C13:rebalance-ok-when-quoted", "C13:atomic-on-failure", "C13:failpoint-atomic", "C13:episode-atomic",
             "C13:episode-fault-raises", "C13:episode-raises-only-when-needed"]
-REQUIRED_CATS = ["measure:weight", "measure:nr-contracts", "closed-with-float-residual", "episode-fault-latent", "episode-1"]
+REQUIRED_CATS = ["measure:weight", "measure:nr-contracts", "closed-with-float-residual", "episode-fault-latent", "episode-1", "episode-quotes-from-table"]
 REQUIRED_HITS = ["Broker.transact", "Broker.rebalance", "Rebalancing.make_trades"]
 TECHNIQUE = "runtime monitoring with fault injection: enumerated quote faults and sys.monitoring failpoints, atomicity asserted via the Broker.transact hook"
 LEVEL_TEXT = ("Fault enumeration. All single-contract fault kinds x position x target combinations are enumerated against the real "
@@ -402,7 +402,18 @@ def episode_case(ctx):
                     continue
             evs.append(EventNBBO(t, c, bid, ask))
     tr = Transmitter(grid)
-    tr.add_events(evs)
+    if rng.random() < 0.35:
+        # the quotes come from a bid/ask TABLE (one row per quote: contract, bid_price, ask_price; a NaN cell is a lost
+        # side) through the generic table loader - the only tabular way to feed two-sided quotes
+        import pandas as pd
+        nb = [e for e in evs if isinstance(e, EventNBBO)]
+        tr.add_events([e for e in evs if not isinstance(e, EventNBBO)])
+        tr.add_custom_events(pd.DataFrame({"contract": [e.contract for e in nb], "bid_price": [e.bid_price for e in nb],
+                                           "ask_price": [e.ask_price for e in nb]},
+                                          index=pd.DatetimeIndex([e.time for e in nb])), EventNBBO)
+        ctx.cat("episode-quotes-from-table")
+    else:
+        tr.add_events(evs)
     kw = dict(latency=L) if L else {}
     env = TradingEnv(action_space=BoxPortfolio(cs, -1, 1), transmitter=tr, initial_cash=1e6,
                      broker_fees=BrokerFees(proportional=1e-4), **kw)
